@@ -132,6 +132,10 @@ TStep ==
                => e.cap >= e.len + e.a, <<e.len, e.a, e.cap>>)
      /\ Chk("C13", "RequestedCapacityAvailable", (e.op = "new" /\ e.a >= 0) => e.cap >= e.a, <<e.a, e.cap>>)
      /\ Chk("C13", "NeighboursUndisturbed", e.canary_ok = 1, e.op)
+     \* Deref / AsRef / Borrow / Index / IntoIterator for &Vec, Hash, Debug, PartialEq / PartialOrd / Ord against another
+     \* vector and against slices, and the mutable views: all agree with the same on the vector's slice (bit i of
+     \* retn = i-th comparison of the driver failed)
+     /\ Chk("C13", "ViewsAgreeWithTheSlice", (e.op = "vec_views" /\ ~panicked) => e.retn = 0, <<e.v, e.retn>>)
      \* ---------------------------------------------------------- C17 ----
      /\ Chk("C17", "BoxContentsAsSpecified", (okPath /\ panicked = x.panics) => MatchAll(x.B, e.bx, created),
             <<x.B, e.bx>>)
